@@ -98,13 +98,13 @@ theorem schedPass_gstep {wf : Wf} {s : St} (hwf : wf.WF) (hrs : RepeatSafe wf)
   generalize (wf.order.foldl (visit wf) (s, [])) = r at h4
   obtain ⟨hd, hp, hc, hs⟩ := launch_rest wf r.2 r.1
   refine ⟨hs, fun j h => ?_, fun j h => ?_, fun j => ?_⟩
-  · obtain ⟨k, hk⟩ := launch_comp wf r.2 r.1 j; rw [hk]; split <;> simp [h]
-  · obtain ⟨k, hk⟩ := launch_comp wf r.2 r.1 j
+  · obtain ⟨k, w, hk⟩ := launch_comp wf r.2 r.1 j; rw [hk]; split <;> simp [h]
+  · obtain ⟨k, w, hk⟩ := launch_comp wf r.2 r.1 j
     rw [hk] at h
     by_cases hj : j ∈ r.2
     · exact Or.inr (h4 j hj).2
     · left; simpa [hj] using h
-  · left; obtain ⟨k, hk⟩ := launch_comp wf r.2 r.1 j; rw [hk]; split <;> simp
+  · left; obtain ⟨k, w, hk⟩ := launch_comp wf r.2 r.1 j; rw [hk]; split <;> simp
 
 theorem advance_gstep {wf : Wf} {s : St} (hG : Good wf s) : GStep wf s (advance wf s) := by
   unfold advance
